@@ -238,7 +238,8 @@ def run_case(case, acc=None, want=("C01", "C02")):
         allv, sols = S[key]
         stmts = class_stmts + inline
         solset = set(sols)
-        sel = case["sel"]
+        sel = [x for x in case["sel"] if isinstance(x, int)]
+        sel = (sel + [0] * 8)[:8]       # (the structural reducer may have shortened the selector list)
         probes = []
         if sols:
             for i in range(min(3, len(sols))):
